@@ -61,6 +61,7 @@ pub struct World {
     pub tracker: TrackerG,          // snapshot tracker (its counter is `visible`)
     pub recovering: bool,           // inside Database::recover/create_new: no other thread has a handle yet
     pub db_manual_persist: bool,    // Config::manual_journal_persist of the database (governs batches and transactions)
+    pub reclaim_due: bool,          // a flush has completed since the last reclaim pass over the sealed journals (JournalManager::maintenance)
     pub poison_checked: bool,       // the database's poison flag was read (and was clear) inside the current critical section
 }
 
